@@ -215,3 +215,16 @@ PROPS["C03"] = {
     "outside": [],
     "claimed": False,
 }
+
+PROPS["C06"] = {
+    "level": "translation_validation",
+    "prepare": g_prepare,
+    "jobs": [],
+    "designs": ["s1"],
+    "harness_tag": "c06",
+    "quick": r"^VerifC06_", "thorough": r"^VerifC06T?_",
+    "bounds": {},
+    "assumptions": [],
+    "outside": [],
+    "claimed": False,
+}
